@@ -46,10 +46,12 @@ class ModelCloud:
             return httpx.AsyncClient(transport=httpx.MockTransport(self.handle_async))
         return factory
 
+    def logical_path(self, request: httpx.Request) -> str:
+        return urlsplit(str(request.url)).path
+
     async def handle_async(self, request: httpx.Request) -> httpx.Response:
         import asyncio
-        url = urlsplit(str(request.url))
-        script = self.fault_script.get(url.path)
+        script = self.fault_script.get(self.logical_path(request))
         if script and script[0] == "timeout":
             await asyncio.sleep(self.timeout_after)
         elif self.latency:
@@ -151,3 +153,138 @@ class ModelCloud:
             return self._json({"tokenlist": lst})
         self._bad(path, "unknown endpoint")
         return httpx.Response(404, text="unknown")
+
+
+# ---------------------------------------------------------------------------------------------------------------------
+# MSmartHome cloud ("mp-prod" proxy API), as documented by the public re-implementations (midea-local,
+# midea-beautiful-air): JSON body posted to /mas/v5/app/proxy?alias=<endpoint>; header sign =
+# HMAC-SHA256(key "PROD_VnoClJI9aikS8dyy", "meicloud" + body + random); login carries password =
+# sha256(loginId + sha256(pw) + loginKey) and iampwd = sha256(loginId + md5(md5(pw)) + loginKey); later requests
+# carry the issued access token in the accessToken header.
+
+import hmac as _hmac
+
+SH_HOST = "mp-prod.appsmb.com"
+SH_HMAC_KEY = "PROD_VnoClJI9aikS8dyy"
+SH_IOT_KEY = "meicloud"
+SH_LOGIN_KEY = "ac21b9f9cbfe4ca5a88562ef25e2b768"
+SH_APP_ID = "1010"
+
+
+class ModelSmartHome(ModelCloud):
+    def __init__(self, accounts: dict) -> None:
+        super().__init__(accounts)
+        self.access_tokens: dict = {}            # access token -> account
+
+    def logical_path(self, request: httpx.Request) -> str:
+        url = urlsplit(str(request.url))
+        return dict(parse_qsl(url.query)).get("alias", url.path)
+
+    def _json(self, result: Optional[dict], code: int = 0, msg: str = "ok") -> httpx.Response:
+        body = {"code": code if self.shuffle % 2 else str(code), "msg": msg}
+        if result is not None:
+            body["data"] = result
+        items = list(body.items())
+        if self.shuffle % 2:
+            items.reverse()
+        return httpx.Response(200, text=json.dumps(dict(items)))
+
+    def handle(self, request: httpx.Request) -> httpx.Response:
+        url = urlsplit(str(request.url))
+        path = self.logical_path(request)
+        self.posts[path] = self.posts.get(path, 0) + 1
+        script = self.fault_script.get(path)
+        fault = script.pop(0) if script else "ok"
+        if fault == "timeout":
+            raise httpx.ReadTimeout("simulated timeout", request=request)
+        if fault == "connect":
+            raise httpx.ConnectError("simulated connect failure", request=request)
+        if fault == "http500":
+            return httpx.Response(500, text="internal error")
+        if fault == "http404":
+            return httpx.Response(404, text="not found")
+        if request.method != "POST":
+            self._bad(path, f"method {request.method}")
+        if url.netloc != SH_HOST or url.scheme != "https" or url.path != "/mas/v5/app/proxy":
+            self._bad(path, f"endpoint {url.scheme}://{url.netloc}{url.path}")
+        if "application/json" not in request.headers.get("content-type", ""):
+            self._bad(path, f"content type {request.headers.get('content-type')}")
+        raw = request.content.decode("ascii", "replace")
+        rnd = request.headers.get("random", "")
+        want = _hmac.new(SH_HMAC_KEY.encode(), (SH_IOT_KEY + raw + rnd).encode("ascii", "replace"), hashlib.sha256).hexdigest()
+        if request.headers.get("sign") != want:
+            self._bad(path, "signature does not match the received body and random header")
+        if request.headers.get("secretversion") != "1":
+            self._bad(path, f"secretVersion {request.headers.get('secretversion')!r}")
+        try:
+            body = json.loads(raw)
+        except ValueError:
+            self._bad(path, "body is not JSON")
+            return httpx.Response(400, text="bad json")
+        self.requests.append((path, dict(body) if isinstance(body, dict) else {}))
+        if fault.startswith("api:"):
+            return self._json(None, int(fault[4:]), "simulated api error")
+        self._n += 1
+        if path == "/v1/user/login/id/get":
+            self._common(path, body)
+            acct = body.get("loginAccount")
+            if acct not in self.accounts:
+                return self._json(None, 3101, "account not found")
+            lid = hashlib.md5(f"sh login id {self._n} {acct}".encode()).hexdigest()
+            self.login_ids[acct] = lid
+            return self._json({"loginId": lid})
+        if path == "/mj/user/login":
+            iot = body.get("iotData") or {}
+            data = body.get("data") or {}
+            if not data.get("deviceId") or str(data.get("platform")) != "2":
+                self._bad(path, f"data section {data}")
+            self._common(path, dict(iot, deviceId=data.get("deviceId"), format=2, language="en_US"), need_lang=False)
+            acct = iot.get("loginAccount")
+            lid = self.login_ids.get(acct)
+            if lid is None:
+                self._bad(path, "login without a login id issued for this account")
+                return self._json(None, 3102, "no login id")
+            pw = self.accounts.get(acct, "")
+            want_pw = hashlib.sha256((lid + hashlib.sha256(pw.encode("ascii", "replace")).hexdigest() + SH_LOGIN_KEY).encode("ascii")).hexdigest()
+            md2 = hashlib.md5(hashlib.md5(pw.encode("ascii", "replace")).hexdigest().encode("ascii")).hexdigest()
+            want_iam = hashlib.sha256((lid + md2 + SH_LOGIN_KEY).encode("ascii")).hexdigest()
+            if iot.get("password") != want_pw:
+                self._bad(path, "password derivation does not match the issued login id")
+                return self._json(None, 3102, "invalid password")
+            if iot.get("iampwd") != want_iam:
+                self._bad(path, "iampwd derivation does not match the issued login id")
+                return self._json(None, 3102, "invalid password")
+            if not iot.get("pushToken"):
+                self._bad(path, "pushToken missing")
+            tok = hashlib.md5(f"sh access {self._n} {acct}".encode()).hexdigest()
+            self.access_tokens[tok] = acct
+            return self._json({"mdata": {"accessToken": tok, "tokenPwdInfo": {}}, "uid": "1234", "key": "k"})
+        if path == "/v1/iot/secure/getToken":
+            self._common(path, body)
+            if request.headers.get("accesstoken") not in self.access_tokens:
+                self._bad(path, f"access token {request.headers.get('accesstoken')!r} was not issued by login")
+                return self._json(None, 40004, "invalid access token")
+            udpid = body.get("udpid", "")
+            if not re.fullmatch(r"[0-9a-f]{32}", udpid):
+                self._bad(path, f"udpid {udpid!r}")
+            if self.known is not None and udpid not in self.known:
+                return self._json({"tokenlist": []})
+            if udpid in self.tokenlists:
+                lst = self.tokenlists[udpid]
+            else:
+                t, k = creds_for(udpid)
+                lst = [{"udpId": udpid, "token": t, "key": k}]
+            return self._json({"tokenlist": lst})
+        self._bad(path, "unknown endpoint")
+        return httpx.Response(404, text="unknown")
+
+    def _common(self, path: str, fields: dict, need_lang: bool = True) -> None:
+        for k, v in (("appId", SH_APP_ID), ("src", SH_APP_ID), ("clientType", "1")):
+            if str(fields.get(k)) != v:
+                self._bad(path, f"constant field {k}={fields.get(k)!r}")
+        if not re.fullmatch(r"\d{14}", str(fields.get("stamp", ""))):
+            self._bad(path, f"stamp {fields.get('stamp')!r}")
+        if not re.fullmatch(r"[0-9a-f]{32}", str(fields.get("reqId", ""))):
+            self._bad(path, f"reqId {fields.get('reqId')!r}")
+        if not fields.get("deviceId"):
+            self._bad(path, "deviceId missing")
